@@ -15,7 +15,8 @@ LEVEL = "exploration"
 
 def describe(tier):
     return {
-        "rule": "TLS: every table suite x valid version (x EtM, x TLS 1.3 hs secrets) with a 6-record history, and every handshake "
+        "rule": "TLS: every table suite x valid version (x EtM, x TLS 1.3 hs secrets) with a 6-record history, every cipher-state class "
+                "with a full-duplex capture (records spanning segments, packets of the other direction between them), and every handshake "
                 "shape within 1 deviation for 9 classes; QUIC: default connection and every 1-deviation scenario of C02's menu; each "
                 "run with and without -a. non-trivial: the -a output holds strictly more payload-carrying packets than the plain "
                 "output and the plain output holds data; distinct = distinct scenario",
@@ -31,6 +32,8 @@ def cases(tier, seed):
         yield {"layer": "A", "suite": code, "seed": seed}
     for (v, code, etm, hs) in c01.SHAPE_CLASSES:
         yield {"layer": "C", "v": v, "suite": code, "etm": etm, "hs": hs, "seed": seed, "k": 1 if tier == "quick" else 2}
+    for (v, code, etm, hs) in c01.classes():
+        yield {"layer": "D", "v": v, "suite": code, "etm": etm, "hs": hs, "seed": seed}
     yield {"layer": "Q", "d1": None, "seed": seed}
     for d1 in c02.ALTS:
         yield {"layer": "Q", "d1": d1, "seed": seed}
@@ -41,10 +44,15 @@ def is_subseq(a, b):
     return all(any(x == y for y in it) for x in a)
 
 
-def tls_pair(scn, seed, sig, fails):
+def tls_pair(scn, seed, sig, fails, duplex=False):
     conn = scen.tls_conn(scn, seed)
     ends = cap.Ends(6)
-    pk = cap.stamp(scen.tls_packets(conn), {0: ends})
+    if duplex:
+        # records spanning segments, with packets of the other direction captured between the segments of a record
+        base = scen.tls_packets(conn, mss=400)
+        pk = cap.stamp(scen.duplex_interleave(base, scen.first_app_packet(conn, base)), {0: ends})
+    else:
+        pk = cap.stamp(scen.tls_packets(conn), {0: ends})
     plain = scen.run(pk, conn.keylog)
     meta = scen.run(pk, conn.keylog, ["-a"])
     try:
@@ -135,6 +143,15 @@ def run_case(case):
                     scn = {"version": v, "suite": code, "etm": etm, "hs_secrets": hs, "tickets": 1 if v == tls.TLS13 else 0,
                            "history": [("c", 40), ("s", 100), ("s", 0), ("c", 7), ("s", 300), ("c", 1)]}
                     tls_one(scn, {"layer": "A", "class": c01.class_name(v, code, etm, hs), "suite": f"{code:#06x}"})
+    elif case["layer"] == "D":
+        v, code, etm, hs = case["v"], case["suite"], case["etm"], case["hs"]
+        scn = {"version": v, "suite": code, "etm": etm, "hs_secrets": hs,
+               "history": [("c", 1000), ("s", 30), ("c", 900), ("s", 1100), ("c", 20), ("s", 700), ("c", 5)]}
+        sig = {"layer": "D", "class": c01.class_name(v, code, etm, hs), "capture": "full duplex interleaving"}
+        ok = tls_pair(scn, seed, sig, fails, duplex=True)
+        n += 2
+        if ok:
+            nontriv.append(engine.jhash(sig))
     elif case["layer"] == "C":
         v, code, etm, hs = case["v"], case["suite"], case["etm"], case["hs"]
         menu = c01.SHAPES_13 if v == tls.TLS13 else c01.SHAPES_LEGACY
